@@ -1439,4 +1439,29 @@ theorem isCapability_eq_splitWs (s : Str) : isCapability s = (splitWs s == [s]) 
     rw [hs] at this; cases this
 
 
+/-! ### `str.lower()` as a parameter
+`ChannelsDictionary.getChannel` keys a channel by `toLower(channel.lower())`.  The model uses ASCII
+lowering for `str.lower()`; the case-insensitivity of channel names needs only the following
+contract of `lower`, which the harness tests against CPython's `str.lower` on every BMP code point
+(`harness/c03.py`, stream `lower-contract`). -/
+
+/-- the channel key with `str.lower` as a parameter -/
+def chanKeyP (lower : Str → Str) (ch : Str) : Str := toLower (lower ch)
+
+/-- contract: IRC-lowering the input first does not change the IRC-lowered result of `lower` -/
+def LowerOK (lower : Str → Str) : Prop := ∀ s, toLower (lower (toLower s)) = toLower (lower s)
+
+theorem chanKeyP_toLower {lower : Str → Str} (h : LowerOK lower) (ch : Str) :
+    chanKeyP lower (toLower ch) = chanKeyP lower ch := h ch
+
+theorem chanKey_eq_chanKeyP : chanKey = chanKeyP asciiLower := rfl
+
+theorem asciiLower_ok : LowerOK asciiLower := chanKey_toLower
+
+/-- two channel names that are equal under IRC case folding get the same record, for any `lower`
+that meets the contract -/
+theorem chanKeyP_case_insens {lower : Str → Str} (h : LowerOK lower) (a b : Str)
+    (hab : toLower a = toLower b) : chanKeyP lower a = chanKeyP lower b := by
+  rw [← chanKeyP_toLower h a, ← chanKeyP_toLower h b, hab]
+
 end C03
